@@ -9,7 +9,9 @@ NOT_SHOWN = {
          "Cuboid, Triangle/Tetrahedron/TriangularMesh closed forms = their surface integrals (iterated one-variable integrals; not formalised)",
          "Circle, Cylinder, CylinderSegment: need Bulirsch cel/el3 (Legendre elliptic integral) theory, absent from Mathlib v4.33",
          "all of the above are checked against numerical quadrature of the defining integral by the oracle (rel. 2e-6 outside, 2e-4 inside)"],
- "C13": ["Cuboid = mesh = tetrahedra; Cylinder = sum of segments; partition additivity of magnets; Polyline -> Circle: equalities between different closed forms, oracle only"],
+ "C13": ["Cuboid = mesh = tetrahedra; Cylinder = sum of segments; partition additivity of magnets; Polyline -> Circle: equalities between different closed forms, oracle only "
+         "(proved: Tetrahedron = wrapH of its four Triangle sheets, with an inside test independent of the vertex order)",
+         "TriangularMesh = sum of its Triangle sheets + inside term: the per-row dispatch is wrapH (proved), the mesh inside test and the grouping loop are not modelled"],
  "C14": ["flux / circulation laws for general surfaces and loops and for the elliptic-integral classes: quadrature oracle only",
          "Mathlib has the divergence theorem for boxes only and no Stokes theorem for general loops"],
 }["C13"]
